@@ -155,7 +155,7 @@ def hGenesis : Handler := fun j => do
       if nodeIds mNet != nodesIter then some "Nodes() differs"
       else if nodeCount mNet != nodeCnt || linkCount mNet != linkCnt || complexity mNet != cplx then some "counts differ"
       else if pairsAsked != pairs.length || loud.length > pairs.length then some "pairsAsked"
-      else if !mimoOk then some "allNodesMIMO is not allNodes ++ controlNodes"
+      else if !mimoOk then some "allNodesMIMO is not allNodes ++ controlNodes (or BaseNodes / ControlNodes / AllNodes / IsControlNode disagree with them)"
       else none
     let diff := netDiff <|> pairDiff <|> idDiff <|> cntDiff
     -- C11 on the implementation's network and answers
